@@ -46,16 +46,43 @@ import (
 //go:embed known_funcs.txt
 var knownText string
 
-// Known returns the table of known function keys.
-func Known() map[string]bool {
-	m := map[string]bool{}
+// Known returns the table of known functions: key -> signature fingerprint ("" when not recorded).
+func Known() map[string]string {
+	m := map[string]string{}
 	for _, l := range strings.Split(knownText, "\n") {
 		l = strings.TrimSpace(l)
 		if l != "" && !strings.HasPrefix(l, "#") {
-			m[l] = true
+			parts := strings.SplitN(l, "|", 2)
+			if len(parts) == 2 {
+				m[parts[0]] = parts[1]
+			} else {
+				m[parts[0]] = ""
+			}
 		}
 	}
 	return m
+}
+
+// Fingerprint is the receiver type and signature of a declared function, package-relative.
+func Fingerprint(pkg *types.Package, fn *types.Func) string {
+	q := types.RelativeTo(pkg)
+	sig := fn.Type().(*types.Signature)
+	recv := ""
+	if sig.Recv() != nil {
+		recv = types.TypeString(sig.Recv().Type(), q)
+	}
+	tuple := func(t *types.Tuple) string {
+		var parts []string
+		for i := 0; i < t.Len(); i++ {
+			parts = append(parts, types.TypeString(t.At(i).Type(), q))
+		}
+		return "(" + strings.Join(parts, ", ") + ")"
+	}
+	v := ""
+	if sig.Variadic() {
+		v = "..."
+	}
+	return recv + " func" + tuple(sig.Params()) + v + " " + tuple(sig.Results())
 }
 
 // Key is the table key of a function declaration: "Recv.name" or "name".
@@ -90,7 +117,8 @@ type Report struct {
 	Skipped    []string // "callee at site: reason"
 	Removed    []string
 	Rounds     int
-	Failed     string // normalisation was abandoned (the source is analysed as written)
+	Failed     string   // normalisation was abandoned (the source is analysed as written)
+	Renamed    []string // "known key -> new key": treated as the known function
 }
 
 // Checker type-checks a set of files into a fresh package.
@@ -115,8 +143,47 @@ type norm struct {
 
 // Normalize rewrites files in place. It returns the package and info of the final type check
 // (the inputs when nothing was expanded).
-func Normalize(fset *token.FileSet, files []*ast.File, pkg *types.Package, info *types.Info, known map[string]bool, check Checker) (*types.Package, *types.Info, *Report, error) {
+func Normalize(fset *token.FileSet, files []*ast.File, pkg *types.Package, info *types.Info, knownSigs map[string]string, check Checker) (*types.Package, *types.Info, *Report, error) {
+	known := map[string]bool{}
+	for k := range knownSigs {
+		known[k] = true
+	}
 	n := &norm{fset: fset, files: files, pkg: pkg, info: info, known: known, rep: &Report{Expanded: map[string]int{}}, skipOnce: map[string]bool{}}
+	// a known function that was merely renamed keeps its role: a declaration outside the table
+	// whose receiver and signature are those of a known function that is absent from the tree
+	// is treated as that function
+	present := map[string]bool{}
+	for _, f := range files {
+		for _, d := range f.Decls {
+			if fd, ok := d.(*ast.FuncDecl); ok {
+				present[Key(fd)] = true
+			}
+		}
+	}
+	absent := map[string][]string{} // fingerprint -> absent known keys
+	for k, fp := range knownSigs {
+		if !present[k] && fp != "" {
+			absent[fp] = append(absent[fp], k)
+		}
+	}
+	for _, f := range files {
+		for _, d := range f.Decls {
+			fd, ok := d.(*ast.FuncDecl)
+			if !ok || fd.Body == nil || known[Key(fd)] {
+				continue
+			}
+			if fn, ok := info.Defs[fd.Name].(*types.Func); ok {
+				fp := Fingerprint(pkg, fn)
+				if ks := absent[fp]; len(ks) > 0 {
+					sort.Strings(ks)
+					n.rep.Renamed = append(n.rep.Renamed, ks[0]+" -> "+Key(fd))
+					absent[fp] = ks[1:]
+					known[Key(fd)] = true
+				}
+			}
+		}
+	}
+	sort.Strings(n.rep.Renamed)
 	cands := map[string]bool{}
 	for _, f := range files {
 		for _, d := range f.Decls {
